@@ -60,6 +60,8 @@ fn lib_report_heartbeat(situation: u8) {
     if situation == 2 { c.cluster_state.node_state_mut_or_init(&x).try_set_heartbeat(Heartbeat(h0)); c.cluster_state.remove_node(&x); }
     let own_before = frontier(&c, &sid());
     let had_window_before = fdx::fd_has_window(&c.failure_detector, &x);
+    // C05 speaks about honest peers: their copy of this node is never ahead of the node itself (C03), heartbeat included
+    if situation == 3 { kani::assume(h <= own_before.unwrap().2); }
     vtime::set_now(vtime::Instant { secs: 100, nanos: 0 });
     c.report_heartbeat(&target, Heartbeat(h));
     let after = frontier(&c, &x);
@@ -88,21 +90,43 @@ fn lib_report_heartbeat(situation: u8) {
 
 // ---------------------------------------------------------------------------------------------
 // C16: a SYN for another cluster is answered with BadCluster and changes nothing but the own heartbeat
-/// cluster ids are a concrete pair per query (empty, prefix of each other, case variants): comparing two strings
-/// of symbolic bytes did not finish at the Chitchat level
-fn lib_bad_cluster(pair: u8) {
+/// own cluster id concrete per query ("c", "", "cc"); the foreign id is ANY different ASCII string of 0..=2 bytes (pair >= 10)
+/// or a concrete one (pair < 10, kept for replaying single cases)
+fn lib_bad_cluster(pair: u8, known: bool) {
     let mut c = mk_chitchat(3600, false, false);
-    let (own, theirs) = match pair { 0 => ("c", "d"), 1 => ("", "c"), 2 => ("c", ""), 3 => ("c", "C"), 4 => ("c", "cc"), _ => ("cc", "c") };
-    c.config.cluster_id = own.to_string();
-    let theirs = theirs.to_string();
+    let theirs: String;
+    if pair >= 10 {
+        // own id concrete ("c", "", "cc"), foreign id = ANY different ASCII string of 0..=2 bytes
+        let own = match pair { 10 => "c", 11 => "", _ => "cc" };
+        c.config.cluster_id = own.to_string();
+        let (b0, b1, l): (u8, u8, usize) = (kani::any(), kani::any(), kani::any());
+        kani::assume(b0 < 128 && b1 < 128 && l <= 2);
+        let ob = own.as_bytes();
+        let same = l == ob.len() && (l < 1 || b0 == ob[0]) && (l < 2 || b1 == ob[1]);
+        kani::assume(!same);
+        let mut v: Vec<u8> = Vec::with_capacity(2);
+        v.push(b0); v.push(b1);
+        unsafe { v.set_len(l); }
+        kani::cover!(l == 1 && b0 == b'C', "foreign id differs by case only");
+        kani::cover!(l == 0, "foreign id empty");
+        kani::cover!(l == 2 && b0 == b'c', "own id is a prefix of the foreign id");
+        theirs = unsafe { String::from_utf8_unchecked(v) };
+    } else {
+        let (own, th) = match pair { 0 => ("c", "d"), 1 => ("", "c"), 2 => ("c", ""), 3 => ("c", "C"), 4 => ("c", "cc"), _ => ("cc", "c") };
+        c.config.cluster_id = own.to_string();
+        theirs = th.to_string();
+    }
     let mut digest = Digest::default();
-    let in_digest: bool = kani::any();
+    // shapes: the digest names one member (contents symbolic; what happens to a digest is behind the marker stub) that the node
+    // knows (`known`) or not; making either symbolic merges two cluster states and doubles the query (19.5 GB)
+    let in_digest: bool = true;
     if in_digest { digest.node_digests.insert(xid(), NodeDigest { heartbeat: Heartbeat(kani::any()), last_gc_version: kani::any(), max_version: kani::any() }); }
-    let known: bool = kani::any();
     if known { c.cluster_state.node_state_mut_or_init(&xid()).try_set_heartbeat(Heartbeat(7)); }
     let own_before = frontier(&c, &sid()).unwrap();
     let x_before = frontier(&c, &xid());
+    unsafe { DIGEST_PROCESSED = false; }
     let reply = c.process_message(ChitchatMessage::Syn { cluster_id: theirs, digest });
+    assert!(!unsafe { DIGEST_PROCESSED }, "C16: the digest of a SYN from another cluster was processed (heartbeats / members would leak)");
     kani::cover!(in_digest && !known, "foreign digest names an unknown member");
     assert!(matches!(reply, Some(ChitchatMessage::BadCluster)), "C16: SYN from another cluster not answered with a rejection only");
     assert!(frontier(&c, &xid()) == x_before, "C16: SYN from another cluster changed a member copy / created a member");
@@ -309,6 +333,24 @@ fn stub_compute_digest(_c: &Chitchat, _sched: &HashSet<&ChitchatId>) -> Digest {
     if n >= 2 { d.node_digests.insert(xid(), NodeDigest { heartbeat: Heartbeat(kani::any()), last_gc_version: kani::any(), max_version: kani::any() }); }
     d
 }
+/// cut for C16: the digest-processing entry point is replaced by a marker; a foreign SYN must never reach it
+static mut DIGEST_PROCESSED: bool = false;
+fn stub_report_heartbeats(_c: &mut Chitchat, _digest: &Digest) { unsafe { DIGEST_PROCESSED = true; } }
+/// cut for C16: on the same-cluster path the content of the reply is irrelevant (any reply other than BadCluster is the violation)
+fn stub_empty_delta(_cs: &ClusterState, _digest: &Digest, _mtu: usize, _sched: &HashSet<&ChitchatId>) -> Delta { Delta::default() }
+/// cut for C16: a SYN never carries a delta; the other arms of process_message are unreachable for it but CBMC cannot fold the
+/// niche-encoded message discriminant, so their bodies would be encoded too
+fn stub_process_delta(_c: &mut Chitchat, delta: Delta) { unsafe { DIGEST_PROCESSED = true; } std::mem::forget(delta); }
+macro_rules! h_lib_c16 { ($name:ident, $unw:expr, $body:expr) => {
+    #[kani::proof]
+    #[kani::unwind($unw)]
+    #[kani::stub(crate::listener::Listeners::trigger_event, noop_trigger)]
+    #[kani::stub(crate::state::ClusterState::compute_partial_delta_respecting_mtu, stub_empty_delta)]
+    #[kani::stub(crate::Chitchat::compute_digest, stub_compute_digest)]
+    #[kani::stub(crate::Chitchat::report_heartbeats_in_digest, stub_report_heartbeats)]
+    #[kani::stub(crate::Chitchat::process_delta, stub_process_delta)]
+    fn $name() { $body }
+}}
 macro_rules! h_lib_contract { ($name:ident, $unw:expr, $body:expr) => {
     #[kani::proof]
     #[kani::unwind($unw)]
